@@ -7,6 +7,7 @@ from ..cfg import CFG
 from ..core import AnalysisError, call_name, calls_in, is_self_attr, norm, walk_local
 from .c03 import yield_counter_rule
 from .c04 import classifier_table_rule
+from .c19 import matcher_rule
 
 EXPLANATION = (
     "Four narrow structural necessary conditions, one per mechanism the property anchors name.  R17.1 (=R04.2): the "
@@ -14,7 +15,9 @@ EXPLANATION = (
     "interpreter's assignment operators.  R17.2: in encapsulate-field every emission of setter text is guarded "
     "(CFG edge-dominance) by the tuple-assignment test whose other edge raises RefactoringError.  R17.3: the finder "
     "that introduce-factory hands to rename_in_module is created with only_calls=True.  R17.4 (=R03.4): use-function's "
-    "generator refusal counts every generator-making constructor.  The emitted getter/setter/factory text and the "
+    "generator refusal counts every generator-making constructor.  R17.5 (=R19.3): the structural matcher behind "
+    "use-function/restructure enumerates every field (only expr_context filtered) and rejects on class, child count, "
+    "list length, scalar type and value.  The emitted getter/setter/factory text and the "
     "body transplant are runtime strings and are not decided."
 )
 ASSUMPTIONS = ["R17.1 and R17.4 share their rule bodies with C04 and C03"]
@@ -77,3 +80,6 @@ def check(ctx, res) -> None:
     res.add("R17.4", "UseFunction|refuses-generators", ok and called, cr.where,
             "UseFunction.__init__ refuses functions with a non-zero yield count with RefactoringError" if ok and called else
             "use-function no longer refuses generator functions (yield-count test or its call from __init__ is gone)")
+
+    # ---- R17.5 (=R19.3): use-function and restructure rewrite what the structural matcher reports as instances
+    matcher_rule(ctx, res, "R17.5")
